@@ -342,6 +342,8 @@ def gram_schmidt(S, d, t, tier):
         res = [T.resolve(o, a_) for o in outs[1:]]
         def premise(c):
             if tiny(c): return False
+            # 0 < |x| is true at a generic point (its failure for every entry is the all-zero matrix, where maxVal = 0)
+            if c.op == 'fcmp' and c.attr == 'olt' and c.args[0].op == 'const' and T.const_value(c.args[0]) == 0 and (c.args[1].op == 'absi' or (c.args[1].op == 'call' and 'fabs' in str(c.args[1].attr))): return True
             return None
         def enum(c): return c.op == 'fcmp' and c.attr in ('olt', 'ole')
         c0 = P.Ctx(); c0.cancel = True
